@@ -751,7 +751,7 @@ def traces(v, tier, seed):
 # Random-access channels (spec/IoRandom.tla): model + mutants, then TLC-emitted vectors replayed
 # on real DISPATCH_IO_RANDOM channels over temp files by harness/drv_iorand.c (spec -> code).
 import zlib
-RAND_MUTANTS = ["nobase", "rr_shared_total"]
+RAND_MUTANTS = ["nobase", "rr_shared_total", "stop_after_io"]
 _cells = {}
 
 
@@ -763,9 +763,9 @@ def cell_bytes(c, unit):
     return _cells[k]
 
 
-def iorand_vectors(seed, num, depth=60):
-    r = tlc_must_pass("IoRandom_emit", "IoRandom.tla", "IoRandom_emit.cfg", workers=4, simulate=num, depth=depth,
-                      seed=seed, timeout=600, metaname="IoRandom_emit")
+def iorand_vectors(seed, num, depth=60, cfg="IoRandom_emit"):
+    r = tlc_must_pass(cfg, "IoRandom.tla", cfg + ".cfg", workers=4, simulate=num, depth=depth,
+                      seed=seed, timeout=600, metaname=cfg)
     if r.violated:
         return [], r
     out = []
@@ -777,7 +777,11 @@ def iorand_vectors(seed, num, depth=60):
 
 
 def iorand_judge(vecs, params, outpath):
-    """vecs[i] = [7777, flen, base, hist]; hist[p] = [ops, got, file0, file]; params[i] = (unit, pages).
+    """vecs[i] = [7777, flen, base, hist]; hist[p] = [ops, full, file0, file, stop]; params[i] = (unit, pages).
+    full[i] = the slice a read delivers when it runs to completion (= what it did deliver in the spec's behaviour when
+    stop = 0).  stop = 1: the batch raced dispatch_io_close(DISPATCH_IO_STOP); the outcome depends on the race, so the
+    clauses of PhaseLaw are evaluated on the observed transfer counts (prefix of the slice; error 0 => everything;
+    the file = the writes' reported prefixes applied to the phase's initial contents).
     Returns list of (vector index, text)."""
     obs = {}
     for ln in open(outpath):
@@ -791,7 +795,8 @@ def iorand_judge(vecs, params, outpath):
     bad = []
     for vi, (vec, (unit, pages)) in enumerate(zip(vecs, params)):
         _, flen, base, hist = vec
-        for p, (ops, got, file0, filep) in enumerate(hist, 1):
+        for p, (ops, got, file0, filep, stop) in enumerate(hist, 1):
+            fexp = bytearray(b"".join(cell_bytes(c, unit) for c in file0))
             for i, (k, off, ln_) in enumerate(ops, 1):
                 o = obs.get(("R", vi, p, i))
                 what = "vector %d (unit %d, chunk pages %d, file %d cells, base %d) phase %d op %d %s(off %d, len %s)" % (
@@ -801,9 +806,24 @@ def iorand_judge(vecs, params, outpath):
                 calls, dones, after, err, total, crc = o
                 if dones != 1 or after != 0:
                     bad.append((vi, what + ": completed %d times, %d handler calls after done" % (dones, after)))
-                if err != 0:
-                    bad.append((vi, what + ": error %d, the spec completes it without error" % err))
-                if k == 0:
+                if err != 0 and not (stop and err == 125):
+                    bad.append((vi, what + ": error %d, the spec completes it %s" % (err, "with 0 or ECANCELED" if stop else "without error")))
+                if k == 1:
+                    data = b"".join(cell_bytes(2000 + 100 * p + 10 * i + c, unit) for c in range(1, ln_ + 1))
+                    wrote = data[:max(0, len(data) - total)] if (stop and err) else data
+                    if wrote:
+                        s0 = (base + off) * unit
+                        if len(fexp) < s0 + len(wrote):
+                            fexp.extend(bytes(s0 + len(wrote) - len(fexp)))
+                        fexp[s0:s0 + len(wrote)] = wrote
+                if stop and k == 0 and err:
+                    exp = b"".join(cell_bytes(c, unit) for c in got[i - 1])
+                    if total > len(exp) or crc != (zlib.crc32(exp[:total]) & 0xffffffff):
+                        bad.append((vi, what + ": stopped read delivered %d bytes crc %08x: not a prefix of the spec's slice %s" % (total, crc, got[i - 1])))
+                elif stop and k == 1 and err:
+                    if total > ln_ * unit:
+                        bad.append((vi, what + ": stopped write reports %d unwritten bytes of %d" % (total, ln_ * unit)))
+                elif k == 0:
                     exp = b"".join(cell_bytes(c, unit) for c in got[i - 1])
                     if total != len(exp) or crc != (zlib.crc32(exp) & 0xffffffff):
                         bad.append((vi, what + ": delivered %d bytes crc %08x, the spec's slice %s is %d bytes crc %08x" % (
@@ -811,7 +831,9 @@ def iorand_judge(vecs, params, outpath):
                 elif total != 0:
                     bad.append((vi, what + ": completed without error but reports %d unwritten bytes" % total))
             o = obs.get(("F", vi, p))
-            exp = b"".join(cell_bytes(c, unit) for c in filep)
+            exp = bytes(fexp) if stop else b"".join(cell_bytes(c, unit) for c in filep)
+            if not stop and exp != bytes(fexp):
+                raise Broken("iorand_judge: ApplyAll transcription disagrees with the spec's file on vector %d" % vi)
             if o is None or o[0] != len(exp) or o[1] != (zlib.crc32(exp) & 0xffffffff):
                 bad.append((vi, "vector %d (unit %d, chunk pages %d, base %d) phase %d ops %s: file afterwards %s, the spec has %s = %d bytes crc %08x" % (
                     vi, unit, pages, base, p, ops, o, filep, len(exp), zlib.crc32(exp) & 0xffffffff)))
@@ -829,8 +851,8 @@ def iorand_run(drv, vecs, params, tag):
         for vec, (unit, pages) in zip(vecs, params):
             _, flen, base, hist = vec
             f.write("%d %d %d %d %d" % (unit, pages, flen, base, len(hist)))
-            for ops, _g, _f0, _f in hist:
-                f.write(" %d" % len(ops))
+            for ops, _g, _f0, _f, stop in hist:
+                f.write(" %d %d" % (len(ops), stop))
                 for k, off, ln_ in ops:
                     f.write(" %d %d %d" % (k, off, ln_))
             f.write("\n")
@@ -857,13 +879,23 @@ def random_access(v, tier, seed):
                         save_replay(PROP, cfgname + ".out", r.out[-20000:]))
             return
     for mu in RAND_MUTANTS:
-        c = cfg_variant("IoRandom_q", "IoRandom_mut_" + mu, [('Mut = "none"', 'Mut = "%s"' % mu)])
+        c = cfg_variant("IoRandom_s_q", "IoRandom_mut_" + mu, [('Mut = "none"', 'Mut = "%s"' % mu)])
         r = tlc_must_pass("IoRandom mutant " + mu, "IoRandom.tla", c, timeout=300, metaname="IoRandom_mut_" + mu)
         if not r.violated:
             raise Broken("spec mutant %s of IoRandom.tla is not refuted: the laws are vacuous" % mu)
     v.notes["iorandom_mutants_refuted"] = RAND_MUTANTS
     num = 60 if tier == "quick" else 600          # per TLC worker (4)
+    for cfgname in ["IoRandom_s_q"]:
+        r = tlc_must_pass(cfgname, "IoRandom.tla", cfgname + ".cfg", timeout=900)
+        v.add_model(cfgname, r)
+        if r.violated:
+            v.violation("IoRandom.tla %s: %s violated (the specification itself)" % (cfgname, r.violated),
+                        save_replay(PROP, cfgname + ".out", r.out[-20000:]))
+            return
     vecs, r = iorand_vectors(seed, num)
+    if not r.violated:
+        vecs2, r = iorand_vectors(seed + 3, max(20, num // 2), cfg="IoRandom_semit")
+        vecs += vecs2
     if r.violated:
         v.violation("IoRandom.tla (emission config): %s violated" % r.violated, save_replay(PROP, "IoRandom_emit.out", r.out[-20000:]))
         return
@@ -875,6 +907,7 @@ def random_access(v, tier, seed):
     bad = iorand_run(drv, vecs, params, "main")
     v.traces += len(vecs)
     v.notes["random_access_vectors_replayed"] = len(vecs)
+    v.notes["random_access_vectors_with_stop"] = sum(1 for vec in vecs if vec[3][-1][4])
     v.notes["random_access_operations"] = sum(len(h[0]) for vec in vecs for h in vec[3])
     v.samples.append("random-access vector: file %d cells, base %d, phases %s" % (vecs[0][1], vecs[0][2], json.dumps(vecs[0][3])[:300]))
     if bad:
